@@ -381,8 +381,18 @@ def render (f : Fmt) (items : List Item) (lay : Layout) : Bytes :=
 
 /-! ### well-formedness (decidable) -/
 
-/-- blanks: ASCII white space other than newline -/
-def padOK (p : Bytes) : Bool := p.all (fun b => isAsciiWs b && b != LF)
+/-- `p` is a sequence of white-space runes (the fuel bounds the number of runes) -/
+def wsRunesAux : Nat → Bytes → Bool
+  | _, [] => true
+  | 0, _ :: _ => false
+  | n + 1, b :: r => spWidth (b :: r) != 0 && wsRunesAux n ((b :: r).drop (spWidth (b :: r)))
+
+/-- every rune of `p` is white space in the sense of `strings.TrimSpace` (`unicode.IsSpace`): the ASCII blanks and
+U+0085, U+00A0, U+1680, U+2000–U+200A, U+2028, U+2029, U+202F, U+205F, U+3000 -/
+def wsRunes (p : Bytes) : Bool := wsRunesAux p.length p
+
+/-- blanks: white-space runes (ASCII or not) other than newline -/
+def padOK (p : Bytes) : Bool := wsRunes p && !p.contains LF
 
 def itemLayOK (l : ItemLay) : Bool :=
   padOK l.pre && padOK l.post && padOK l.i1 && padOK l.i2 && padOK l.i3 && padOK l.i4 && l.blanks.all padOK
